@@ -24,7 +24,11 @@ except Exception:
     pass
 checks = []
 claimed = []
+allow_file = os.path.join(HERE, "claimed.txt")
+allow = set(open(allow_file).read().split()) if os.path.exists(allow_file) else set(plug)
 for pid in plug:
+    if pid not in allow:
+        continue
     mod = importlib.import_module("props." + pid)
     m = getattr(mod, "MANIFEST", None)
     if not m or not m.get("claim", True):
